@@ -112,7 +112,7 @@ Theorem C15_parse_to_string_upto5 : forall s, (length s <= 5)%nat ->
 Proof. exact parse_to_string_upto5. Qed.
 Print Assumptions C15_parse_to_string_upto5.
 
-From PBK Require Import PathSweep6.
+From PBK Require Import PathSweep6 PathSweep6b.
 Theorem C15_parse_iff_grammar_upto6 : forall s, (length s <= 6)%nat ->
   (forall c, In c s -> In c alphabet12) -> agrees s = true.
 Proof. exact parse_iff_grammar_upto6. Qed.
